@@ -60,6 +60,12 @@ def run(ctx):
     ctx.rule('C19.2', 'writer layout predicate implies the reader\'s unit-order predicate')
     ctx.rule('C19.3', 'rate encoding: writer negates-reciprocal iff < 1 (signed), reader inverts iff negative')
     ctx.rule('C19.4', 'both converters resolve (and so validate) the setting before the output file is opened')
+    ctx.rule('C19.5', 'every accepted blockshape: the fresh header sizes the data section with the blockshape component of each axis')
+    from .. import headerrules as HR
+    from .c03 import check_sizes
+    ht = HR.HeaderTable(P, G)
+    check_sizes(ctx, ht, 'C19.5', select=lambda f: f.module.name == 'conversion_utils')
+    ctx.floor('C19.5', 2, 'size formulas of the fresh-header writer (3D and 2D branch)')
     entry, cores = resolver(P, G)
     for f in cores:
         fm = FactMap(f.node)
